@@ -182,6 +182,11 @@ def hasIterP : List (Value × Value) → Bool
   | (k, v) :: r => hasIter k || hasIter v || hasIterP r
 end
 
+/-- what using `k` as a dictionary key raises when it is not hashable by content: TypeError - unless a one-shot
+    iterator is (in) it, which Python hashes by IDENTITY (the lookup / insertion then succeeds and finds nothing, the
+    finaliser fails later): not modelled -/
+def keyErr (k : Value) : Err := if hasIter k then .outOfDomain else .type
+
 /-- `#get_context_data`: `context[name]`, missing -> null -/
 def readVar (C : Ctx) (x : Name) : R Obj :=
   match C.get x with
@@ -295,7 +300,7 @@ def toDictL (kf vf : Value → R Value) (acc : KV) : VL → Option Err → R KV
   | x :: xs, e => do
     let k ← kf x
     let v ← vf x
-    if hashable k then toDictL kf vf (Seq.dSet acc k v) xs e else .error .type
+    if hashable k then toDictL kf vf (Seq.dSet acc k v) xs e else .error (keyErr k)
 
 /-- consume everything (`tuple(it)`, `len`) -/
 def drain (s : VL × Option Err) : R VL :=
@@ -376,9 +381,9 @@ def indexer (r : Obj) (args : VL) : R Obj :=
     | some i => do let v ← liftSeq (Seq.pyIndex l i); pure (.val v)
     | none => .error .noFunction
   | .val (.dict d), [k] =>
-    if hashable k then (match Seq.dGet d k with | some v => .ok (.val v) | none => .error .key) else .error .type
+    if hashable k then (match Seq.dGet d k with | some v => .ok (.val v) | none => .error .key) else .error (keyErr k)
   | .val (.dict d), [k, dflt] =>
-    if hashable k then .ok (.val ((Seq.dGet d k).getD dflt)) else .error .type
+    if hashable k then .ok (.val ((Seq.dGet d k).getD dflt)) else .error (keyErr k)
   | _, _ => .error .noFunction
 
 mutual
@@ -418,7 +423,8 @@ def memberOf (r : Obj) (name : Name) : R Obj :=
 
 /-- `FrozenDict(pairs)` -/
 def mkDict (ps : KV) : R Obj :=
-  if ps.all (fun p => hashable p.1) then .ok (.val (.dict (Seq.dOfPairs ps))) else .error .type
+  if ps.all (fun p => hashable p.1) then .ok (.val (.dict (Seq.dOfPairs ps)))
+  else .error (if ps.any (fun p => hasIter p.1) then .outOfDomain else .type)
 
 /-- the elements one argument of `list(...)` contributes: iterators are opened -/
 def listArg : Obj → R VL
@@ -672,7 +678,7 @@ def callMethod (ev : Ev) (C : Ctx) (bad : Err) (r : Obj) (f : Fn) (args : List E
     | .val (.dict d) => do
       let ko ← ev C k
       let kv ← toV ko
-      if hashable kv then pure (.val ((Seq.dGet d kv).getD .null)) else .error .type
+      if hashable kv then pure (.val ((Seq.dGet d kv).getD .null)) else .error (keyErr kv)
     | _ => .error bad
   | .get, [k, dflt] =>
     match r with
@@ -681,7 +687,7 @@ def callMethod (ev : Ev) (C : Ctx) (bad : Err) (r : Obj) (f : Fn) (args : List E
       let kv ← toV ko
       let dobj ← ev C dflt
       let dv ← toV dobj
-      if hashable kv then pure (.val ((Seq.dGet d kv).getD dv)) else .error .type
+      if hashable kv then pure (.val ((Seq.dGet d kv).getD dv)) else .error (keyErr kv)
     | _ => .error bad
   | .unpack, names =>
     match toIter r with
